@@ -17,6 +17,7 @@ import (
 	"log/slog"
 	"net/http"
 	"runtime/debug"
+	"encoding/base64"
 	"os"
 	"path/filepath"
 	"sort"
@@ -336,6 +337,12 @@ func (w *world) ServeHTTP(rw http.ResponseWriter, r *http.Request) {
 				body = nb
 			}
 		}
+	case "sigalg":
+		// the log's signature line with another signature algorithm id and
+		// garbage where the signature was
+		if path == "checkpoint" {
+			body = forgeSigAlg(body, logName, n)
+		}
 	case "extline":
 		// an extension line nobody signed (the RFC 6962 signature covers size,
 		// root and timestamp only), spliced in after the root line
@@ -569,7 +576,7 @@ func (w *world) enabled(next int, drain bool) []core.WCmd {
 			}
 		}
 		if op.Key == "checkpoint" {
-			kinds = append(kinds, "older", "foreign", "flip", "extend", "extline", "extline")
+			kinds = append(kinds, "older", "foreign", "flip", "extend", "extline", "extline", "sigalg", "sigalg")
 		}
 		k := kinds[r.Intn(len(kinds))]
 		arg := fmt.Sprint(n)
@@ -944,4 +951,31 @@ func (w *world) mainFile() {
 		}
 		w.sim.Probe("filemode.call")
 	}
+}
+
+// forgeSigAlg rewrites the first signature line of name: the TLS signature
+// algorithm byte becomes one that does not match the key, the signature bytes
+// garbage; size and root are altered too, so that acceptance is visible.
+func forgeSigAlg(ck []byte, name string, n int) []byte {
+	lines := strings.SplitAfter(string(ck), "\n")
+	for i, l := range lines {
+		if !strings.HasPrefix(l, "— "+name+" ") {
+			continue
+		}
+		parts := strings.SplitN(strings.TrimSuffix(l, "\n"), " ", 3)
+		raw, err := base64.StdEncoding.DecodeString(parts[2])
+		if err != nil || len(raw) < 20 {
+			continue
+		}
+		raw[13] = byte(n % 3) // anonymous(0), rsa(1), dsa(2): none is ecdsa(3)
+		for j := 16; j < len(raw); j++ {
+			raw[j] = byte(n + j)
+		}
+		lines[i] = parts[0] + " " + parts[1] + " " + base64.StdEncoding.EncodeToString(raw) + "\n"
+		if len(lines) > 1 {
+			lines[1] = fmt.Sprintf("%d\n", 100000+n%1000)
+		}
+		return []byte(strings.Join(lines, ""))
+	}
+	return ck
 }
